@@ -24,7 +24,7 @@ type Obligation struct {
 	Text   string // human-readable text of what is being proved
 	Seq    int    // position in vc.items
 	Func   string
-	Canary bool // must be sat (vacuity guard)
+	Canary bool   // must be sat (vacuity guard)
 	Static string // "" | "holds" | "fails": decided syntactically by the generator, no solver involved
 	// filled by the solver stage
 	Result  string // unsat sat unknown timeout error
@@ -66,53 +66,54 @@ type State struct {
 }
 
 type VC struct {
-	P        *Program
-	fn       *ssa.Function
-	spec     *FuncSpec
-	name     string
-	decls    []string
-	declared map[string]bool
-	items    []item
-	obls     []*Obligation
-	vals     map[ssa.Value]Term
-	tuples   map[ssa.Value][]Term
-	stateSort map[string]string
-	freshN   int
-	epochN   int
-	stateN   int
-	entry    *State
-	notes    []string // unsupported constructs encountered (over-approximated)
-	discover bool
-	written  map[*ssa.BasicBlock]map[string]map[string]bool
+	P             *Program
+	fn            *ssa.Function
+	spec          *FuncSpec
+	name          string
+	decls         []string
+	declared      map[string]bool
+	items         []item
+	obls          []*Obligation
+	vals          map[ssa.Value]Term
+	tuples        map[ssa.Value][]Term
+	stateSort     map[string]string
+	freshN        int
+	epochN        int
+	stateN        int
+	entry         *State
+	notes         []string // unsupported constructs encountered (over-approximated)
+	discover      bool
+	written       map[*ssa.BasicBlock]map[string]map[string]bool
 	writtenFrozen map[*ssa.BasicBlock]map[string]map[string]bool
-	protectedNow  bool             // a recovering deferred handler is registered: panics of the current instruction are its business
-	deferBlock    *ssa.BasicBlock  // block registering that handler
-	panicFrom     *State           // state right after the registration (deferred calls recorded)
-	panicStable   []*ssa.Alloc     // captured locals nothing writes after the registration
-	deferGuard    string           // reachability of the registration
-	privateCells  []*ssa.Alloc     // locals no callee without contract can reach
+	protectedNow  bool                          // a recovering deferred handler is registered: panics of the current instruction are its business
+	deferBlock    *ssa.BasicBlock               // block registering that handler
+	panicFrom     *State                        // state right after the registration (deferred calls recorded)
+	panicStable   []*ssa.Alloc                  // captured locals nothing writes after the registration
+	deferGuard    string                        // reachability of the registration
+	privateCells  []*ssa.Alloc                  // locals no callee without contract can reach
 	loopFrame     map[*loopInfo]map[string]bool // maps whose writes inside the loop must hit objects allocated by this call
-	curBlock *ssa.BasicBlock
-	curGuard string
-	hasAlloc bool
-	lets     map[string]Term
-	panicsIff string // translated panics_iff condition over the entry state ("" when absent)
-	hasPanicsIff bool
-	usedExterns map[string]bool
-	usedSpecs   map[string]bool
-	allocs   []string
-	funDecls map[string]bool
-	preamble []string // axioms instantiated for this VC (spec functions etc.)
-	recInfo  map[string]*recInfo
-	replayKeys []string
-	reach      map[*ssa.BasicBlock]map[*ssa.BasicBlock]bool // reachability in the CFG without back edges
-	allocBlock map[string]*ssa.BasicBlock // allocation constants (and values defined from them) -> block
-	loops      []*loopInfo
-	loopHead   map[*loopInfo]*State
-	symsUsed   map[string]bool // prelude symbols the contracts of this function mention
-	symsFrozen map[string]bool // ... as found by the discovery pass
-	knownVars  map[string]string // state variables (name -> sort) the discovery pass met
-	globalPkg  map[string]string // state variable of a package-level variable -> package path
+	curBlock      *ssa.BasicBlock
+	curGuard      string
+	hasAlloc      bool
+	lets          map[string]Term
+	panicsIff     string // translated panics_iff condition over the entry state ("" when absent)
+	hasPanicsIff  bool
+	usedExterns   map[string]bool
+	usedSpecs     map[string]bool
+	allocs        []string
+	funDecls      map[string]bool
+	preamble      []string // axioms instantiated for this VC (spec functions etc.)
+	recInfo       map[string]*recInfo
+	replayKeys    []string
+	reach         map[*ssa.BasicBlock]map[*ssa.BasicBlock]bool // reachability in the CFG without back edges
+	allocBlock    map[string]*ssa.BasicBlock                   // allocation constants (and values defined from them) -> block
+	loops         []*loopInfo
+	loopHead      map[*loopInfo]*State
+	symsUsed      map[string]bool      // prelude symbols the contracts of this function mention
+	symsFrozen    map[string]bool      // ... as found by the discovery pass
+	knownVars     map[string]string    // state variables (name -> sort) the discovery pass met
+	globalPkg     map[string]string    // state variable of a package-level variable -> package path
+	ssaByName     map[string]ssa.Value // SMT constant of a defined SSA value -> the value
 }
 
 func (vc *VC) fresh(prefix, sort string) string {
@@ -374,7 +375,7 @@ func (vc *VC) markWrittenAt(name, idx string) {
 	// loops whose frame rests on "the body only writes objects of this call" (see loopHeader)
 	if !vc.discover && idx != "" {
 		for li, ks := range vc.loopFrame {
-			if !ks[name] || !li.blocks[vc.curBlock] || loopInvariantTerm(idx) {
+			if !ks[name] || !li.blocks[vc.curBlock] || vc.invariantIn(li, idx) {
 				continue
 			}
 			if ab, ok := vc.allocBlock[idx]; ok && li.blocks[ab] {
@@ -397,6 +398,22 @@ func (vc *VC) setAt(st *State, name, sort, idx, val string) {
 }
 
 var identRe = regexp.MustCompile(`[A-Za-z_$!@][A-Za-z0-9_$!@.\-]*`)
+
+// invariantIn: does term t only mention parameters, captured variables, globals and SSA values
+// defined outside loop li (an SSA value never changes once defined)?
+func (vc *VC) invariantIn(li *loopInfo, t string) bool {
+	for _, id := range identRe.FindAllString(t, -1) {
+		if v, ok := vc.ssaByName[id]; ok && li != nil {
+			if in, isInstr := v.(ssa.Instruction); isInstr && in.Block() != nil && !li.blocks[in.Block()] {
+				continue
+			}
+		}
+		if !loopInvariantTerm(id) {
+			return false
+		}
+	}
+	return true
+}
 
 // loopInvariantTerm: does term t only mention parameters, captured variables and globals?
 func loopInvariantTerm(t string) bool {
@@ -543,9 +560,37 @@ func (vc *VC) cellVar(t types.Type) (string, string) {
 	return "cell_" + mangle(sort), "(Array Int " + sort + ")"
 }
 
+// elemVar: the backing arrays of slices, one state variable per Go element type (a backing array has
+// exactly one element type, so slices of different element types never share storage; byte/uint8 and
+// rune/int32 are the same type).
 func (vc *VC) elemVar(t types.Type) (string, string) {
 	sort := vc.ss().sortOf(t)
-	return "el_" + mangle(sort), "(Array Int (Array Int " + sort + "))"
+	return "el_" + mangle(canonTypeName(t)), "(Array Int (Array Int " + sort + "))"
+}
+
+func canonTypeName(t types.Type) string {
+	t = types.Unalias(t)
+	switch u := t.(type) {
+	case *types.Basic:
+		if u.Kind() == types.UntypedNil {
+			return "nil"
+		}
+		return types.Typ[u.Kind()].Name()
+	case *types.Pointer:
+		return "P" + canonTypeName(u.Elem())
+	case *types.Slice:
+		return "L" + canonTypeName(u.Elem())
+	case *types.Interface:
+		if u.NumMethods() == 0 {
+			return "any"
+		}
+	}
+	return byteRuneRe.ReplaceAllStringFunc(shortTypeName(t), func(m string) string {
+		if m == "byte" {
+			return "uint8"
+		}
+		return "int32"
+	})
 }
 
 func (vc *VC) mapVars(m *types.Map) (has, hasSort, val, valSort string) {
